@@ -35,7 +35,7 @@ def inject(rng, text):
                        "redecl_as_const", "redecl_bank_signal", "dup_register", "assign_twice", "assign_twice_builtin",
                        "read_undeclared", "assign_undeclared", "assign_bank_out", "assign_builtin_out", "assign_const",
                        "assign_preamble_const", "const_reads_wire", "default_reads_wire", "partial_disabled_ok",
-                       "assign_twice_in_chain", "assign_twice_in_chain", "bad_bank_name"])
+                       "assign_twice_in_chain", "assign_twice_in_chain", "bad_bank_name", "partial_shared"])
 
     def drop_assign(name):
         out = []
@@ -89,6 +89,11 @@ def inject(rng, text):
             if a == "mem_input":
                 new = [l if not l.startswith("mem_writebit = ") else "mem_writebit = (P_pc)[0..1];" for l in new]
             return new, "PartialFixedInput", b, kind
+    if kind == "partial_shared" and all(x in assigned for x in ("mem_addr", "mem_readbit", "mem_input", "mem_writebit")):
+        # the read port is complete; the write port is left with the one input it shares with it
+        new = drop_assign("mem_input")
+        lines[:] = new
+        return drop_assign("mem_writebit"), "PartialFixedInput", "mem_addr", kind
     if kind == "partial_disabled_ok" and "mem_input" in assigned:
         lines[:] = unchain("mem_writebit")
         new = drop_assign("mem_input")
@@ -228,7 +233,7 @@ def check(report, tier, seed):
     report.coverage["evaluations"] = len(cases)
     report.coverage["distinct_nontrivial"] = len(set(c["hcl"] for c in cases.values() if c["fault"] != "none"))
     report.coverage["rule"] = ("a correct random program (1-12, thorough up to 40 wires, banks, register file, memory) with exactly one injected driver fault "
-                               "of a known kind on a known name (23 fault classes incl. malformed bank names, a name repeated within one chained assignment, over plain wires, constants incl. preamble ones, bank inputs/outputs, "
+                               "of a known kind on a known name (24 fault classes incl. a write port left with only the address it shares with the complete read port, malformed bank names, a name repeated within one chained assignment, over plain wires, constants incl. preamble ones, bank inputs/outputs, "
                                "stall/bubble, built-in inputs/outputs), or none; oracle 1: rejected with a diagnostic of that kind naming that wire / accepted "
                                "when fault-free; oracle 2: verdict, diagnostic multiset and compiled program equal the model's build_program")
     report.coverage["distribution"] = dict(stats, **{"fault_" + k2: v2 for k2, v2 in by.items()})
